@@ -8,7 +8,7 @@ From GV Require Import Base.Ints Gen.Math Gen.Kernel Model.Mirror
   Proofs.MirrorTotal Proofs.MirrorRestart Proofs.MirrorLog
   Proofs.MirrorResumeWit Proofs.MirrorResumeLoad Proofs.MirrorResumeInv Proofs.MirrorResumeStart
   Proofs.MirrorResumeAhead Proofs.MirrorResumeOps Proofs.MirrorResumeOps2 Proofs.MirrorResumeOps3 Proofs.MirrorResumeOps4
-  Proofs.MirrorResumeOps5 Proofs.MirrorResume.
+  Proofs.MirrorResumeOps5 Proofs.MirrorResumeAhead2 Proofs.MirrorResume.
 Import ListNotations.
 Local Open Scope N_scope.
 
@@ -49,7 +49,7 @@ Example e_s2_reachable :
 Proof.
   split.
   - apply (rg_step 1 ex_vs e_s1 (XCrash 1 e_pc) e_s2 HandleVoteProofsAccepted);
-      [exact e_s1_reachable|split; [exact e_pc_wf|exact e_cut_clean]|vm_compute; reflexivity].
+      [exact e_s1_reachable|exact e_pc_wf|vm_compute; reflexivity].
   - vm_compute. repeat split; reflexivity.
 Qed.
 
@@ -57,6 +57,16 @@ Qed.
 Example e_cut_ahead : ~ clean_cut e_s1 e_pc 2.
 Proof. unfold clean_cut. vm_compute. discriminate. Qed.
 
-(** the model's start-up comes up there as well (by evaluation, for this history) *)
-Example e_cut_ahead_restart_ok : is_ok (xstep e_s1 (XCrash 2 e_pc)) = true.
-Proof. vm_compute. reflexivity. Qed.
+(** the history continues from the restart at that cut as well: the stored position is still
+    (1,0,0,0) while the header store already holds the header of height 1; start-up commits again *)
+Definition e_s3 : kstate :=
+  match xstep e_s1 (XCrash 2 e_pc) with Ok (s, _) => s | Panic _ => e_s1 end.
+
+Example e_s3_reachable :
+  reachable_g 1 ex_vs e_s3 /\ st_nhr e_s3 = (2, 0, 1, 0) /\ List.length (st_hdrs e_s3) = 1%nat.
+Proof.
+  split.
+  - apply (rg_step 1 ex_vs e_s1 (XCrash 2 e_pc) e_s3 HandleVoteProofsAccepted);
+      [exact e_s1_reachable|exact e_pc_wf|vm_compute; reflexivity].
+  - vm_compute. split; reflexivity.
+Qed.
